@@ -12,6 +12,9 @@ import BumpProof.Props.C11
 import BumpProof.Lemmas.CtrlBase
 import BumpProof.Lemmas.CtrlEx
 
+set_option linter.unusedSimpArgs false
+set_option linter.unusedVariables false
+
 namespace C14
 open Arena Rs Ctrl
 
@@ -63,9 +66,6 @@ theorem reserve_claimed (cfg : Cfg) (s : State) (n : Nat) (hc : s.cur = .claimed
   unfold reserve
   simp only [hc]
   rfl
-
-theorem bytes_layout_valid {n : Nat} (h : n ≤ Rs.IMAX) : ({ size := n, align := 1 } : Layout).Valid :=
-  ⟨⟨0, by decide, rfl⟩, h⟩
 
 /-- `dyn` reserve: refused as well (a request beyond `isize::MAX` is refused before the handle is looked at) -/
 theorem reserveDyn_claimed (cfg : Cfg) (s : State) (n : Nat) (hc : s.cur = .claimed)
@@ -264,6 +264,15 @@ example : HasClaim exG := List.mem_cons_self
 
 example : stepCore wCfg exG (.onClaimed (.allocLayout exL Hints.sized)) = .ok (exG, .err .claimed) :=
   onClaimed_allocLayout _ _ _ _ List.mem_cons_self minAlign8 exL_valid (fun _ => ⟨3, rfl⟩)
+
+example : stepCore wCfg exG (.onClaimed (.allocate exL true .withoutShrink)) = .ok (exG, .err .claimed) :=
+  onClaimed_allocate _ _ _ _ _ List.mem_cons_self minAlign8 exL_valid
+
+example : stepCore wCfg exG (.onClaimed (.reserve 1000 true)) = .ok (exG, .err .claimed) :=
+  onClaimed_reserve _ _ 1000 true List.mem_cons_self minAlign8
+
+example : stepCore wCfg exG (.onClaimed .claim) = .ok (exG, .panic "bump allocator is already claimed") :=
+  onClaimed_claim _ _ List.mem_cons_self
 
 example : stepCore wCfg exG (.onClaimed (.grow 0 { size := 32, align := 8 } false .plain)) = .ok (exG, .err .claimed) :=
   onClaimed_grow _ _ 0 exBlk _ _ _ List.mem_cons_self minAlign8 ⟨⟨3, by decide, rfl⟩, by decide⟩ rfl (by decide)
